@@ -164,3 +164,139 @@ Proof.
   - vm_compute. intros E. discriminate E.
 Qed.
 Print Assumptions C15a_example_theorem_applies.
+
+(** * Table files below the block contents ([model/TableFile.v]): block trailers, handles, footer *)
+From Coq Require Import List NArith Bool.
+From RainVerif Require Import Params.
+From RainVerif.model Require Import Bytes Crc Block LogScript TableFile.
+From RainVerif.proofs Require Import TableFileProofs.
+Import ListNotations.
+
+(** T1: a stored block anywhere in a file is read back through its handle *)
+Theorem C15b_read_stored : forall (pre p : bytes) (t : N) (post : bytes),
+  t <= 1 ->
+  read_block_at (pre ++ stored_block p t ++ post) (mkH (blen pre) (blen p)) = BOk p t.
+Proof. exact read_stored. Qed.
+Print Assumptions C15b_read_stored.
+
+(** T2: every handle returned by the layout reads back its block *)
+Theorem C15b_layout_read_back :
+  forall (blocks : list (bytes * N)) (off : N) (bs : bytes) (handles : list handle)
+         (pre post : bytes),
+  layout_blocks off blocks = (bs, handles) ->
+  blen pre = off ->
+  Forall (fun b => snd b <= 1) blocks ->
+  Forall2 (fun h b => read_block_at (pre ++ bs ++ post) h = BOk (fst b) (snd b)) handles blocks.
+Proof. exact layout_read_back. Qed.
+Print Assumptions C15b_layout_read_back.
+
+(** T3: one changed byte of a stored block (payload, type byte or one of the four checksum
+    bytes) is reported as a checksum mismatch *)
+Theorem C15b_block_single_byte_detected : forall (pre p : bytes) (t : N) (post : bytes) (o v : N),
+  is_bytes p -> t <= 1 ->
+  blen pre <= o < blen pre + blen p + 5 ->
+  v < 256 ->
+  v <> nth (N.to_nat o) (pre ++ stored_block p t ++ post) 0 ->
+  read_block_at (update_at (N.to_nat o) v (pre ++ stored_block p t ++ post))
+                (mkH (blen pre) (blen p)) = BChecksum.
+Proof. exact block_single_byte_detected. Qed.
+Print Assumptions C15b_block_single_byte_detected.
+
+(** T4 *)
+Theorem C15b_handle_roundtrip : forall (h : handle) (rest : bytes),
+  h_off h < 18446744073709551616 -> h_size h < 18446744073709551616 ->
+  handle_decode (handle_encode h ++ rest) = Some (h, length (handle_encode h)) /\
+  (length (handle_encode h) <= 20)%nat.
+Proof. exact handle_roundtrip. Qed.
+Print Assumptions C15b_handle_roundtrip.
+
+(** T5 *)
+Theorem C15b_footer_roundtrip : forall (m i : handle) (body : bytes),
+  h_off m < 18446744073709551616 -> h_size m < 18446744073709551616 ->
+  h_off i < 18446744073709551616 -> h_size i < 18446744073709551616 ->
+  footer_decode (footer_encode m i) = Some (m, i) /\
+  blen (footer_encode m i) = 48 /\
+  file_footer (body ++ footer_encode m i) = Some (m, i).
+Proof. exact footer_roundtrip. Qed.
+Print Assumptions C15b_footer_roundtrip.
+
+(** T6: a changed byte among the last eight of a footer *)
+Theorem C15b_footer_magic_checked : forall (m i : handle) (k : nat) (v : N),
+  (40 <= k < 48)%nat -> v < 256 -> v <> nth k (footer_encode m i) 0 ->
+  footer_decode (update_at k v (footer_encode m i)) = None.
+Proof. exact footer_magic_checked. Qed.
+Print Assumptions C15b_footer_magic_checked.
+
+(** the same for any 48 bytes that carry the magic number *)
+Theorem C15b_magic_checked_any_footer : forall (b : bytes) (k : nat) (v : N),
+  is_bytes b -> (40 <= k < 48)%nat -> v < 256 -> v <> nth k b 0 ->
+  le_decode (skipn 40 b) = TABLE_MAGIC ->
+  footer_decode (update_at k v b) = None.
+Proof. exact magic_checked_gen. Qed.
+Print Assumptions C15b_magic_checked_any_footer.
+
+(** and at the level of a whole file *)
+Theorem C15b_file_footer_magic_checked : forall (body : bytes) (m i : handle) (o v : N),
+  h_off m < 18446744073709551616 -> h_size m < 18446744073709551616 ->
+  h_off i < 18446744073709551616 -> h_size i < 18446744073709551616 ->
+  blen body + 40 <= o < blen body + 48 -> v < 256 ->
+  v <> nth (N.to_nat o) (body ++ footer_encode m i) 0 ->
+  file_footer (update_at (N.to_nat o) v (body ++ footer_encode m i)) = None.
+Proof. exact file_footer_magic_checked. Qed.
+Print Assumptions C15b_file_footer_magic_checked.
+
+(** * T7: examples by computation: three blocks (one with an empty payload, one of type 1) and a
+    footer whose handles are those of the second and the third block *)
+
+Example C15b_ex_file :
+  ex_blocks = [([1; 2; 3; 250; 0; 7], 0); ([], 0); ([9; 9; 9; 128; 255], 1)] /\
+  ex_file = fst (layout_blocks 0 ex_blocks) ++ footer_encode (mkH 11 0) (mkH 16 5) /\
+  snd (layout_blocks 0 ex_blocks) = [mkH 0 6; mkH 11 0; mkH 16 5] /\
+  blen ex_file = 74.
+Proof. vm_compute. repeat split; reflexivity. Qed.
+
+Example C15b_ex_handles_read_back :
+  map (read_block_at ex_file) (snd (layout_blocks 0 ex_blocks)) =
+  map (fun b => BOk (fst b) (snd b)) ex_blocks.
+Proof. exact ex_handles_read_back. Qed.
+
+Example C15b_ex_footer_decodes : file_footer ex_file = Some (mkH 11 0, mkH 16 5).
+Proof. exact ex_footer_decodes. Qed.
+
+Example C15b_ex_first_block_flips :
+  forallb (fun o =>
+    forallb (fun x =>
+      block_read_eqb
+        (read_block_at (update_at o (N.lxor (nth o ex_file 0) x) ex_file) (mkH 0 6))
+        BChecksum) [1; 128; 255])
+    (seq 0 11) = true.
+Proof. exact ex_first_block_flips. Qed.
+
+Example C15b_ex_other_block_flips :
+  forallb (fun o =>
+    forallb (fun x =>
+      block_read_eqb
+        (read_block_at (update_at o (N.lxor (nth o ex_file 0) x) ex_file) (mkH 11 0))
+        BChecksum) [1; 128; 255])
+    (seq 11 5) = true /\
+  forallb (fun o =>
+    forallb (fun x =>
+      block_read_eqb
+        (read_block_at (update_at o (N.lxor (nth o ex_file 0) x) ex_file) (mkH 16 5))
+        BChecksum) [1; 128; 255])
+    (seq 16 10) = true.
+Proof. exact ex_other_block_flips. Qed.
+
+Example C15b_ex_other_outcomes :
+  read_block_at (update_at 12 77 ex_file) (mkH 0 6) = BOk [1; 2; 3; 250; 0; 7] 0 /\
+  read_block_at (stored_block [5; 6] 2) (mkH 0 2) = BType /\
+  read_block_at ex_file (mkH 70 10) = BShort.
+Proof. exact ex_other_outcomes. Qed.
+
+Example C15b_ex_magic_flips :
+  forallb (fun o =>
+    forallb (fun x =>
+      match file_footer (update_at o (N.lxor (nth o ex_file 0) x) ex_file) with
+      | None => true | Some _ => false end) [1; 128; 255])
+    (seq (length ex_file - 8) 8) = true.
+Proof. exact ex_magic_flips. Qed.
